@@ -17,14 +17,17 @@ EXPLANATION = ("The on-disk table search `search_on_sorted_u64s` (every file / x
                "returns Ok, that every reported value was read right after a key equal to the probe key inside the table, and that reported "
                "positions strictly increase within a step and stay inside [new hi, old hi) (so nothing is reported twice).  A second family "
                "does the same for the chunk-index scan used when a shard has no chunk lookup table (read_all_truncated_hashes): the entry "
-               "index advances by 1 + num_entries per xorb record on every path.  A Kani harness over the compiled code with the float "
+               "index advances by 1 + num_entries per xorb record on every path.  The four streaming section walkers (sync / async, file / xorb "
+               "section) consume after each header exactly 48 * (num_entries + (verification ? num_entries : 0) + (metadata ext ? 1 : 0)) resp. "
+               "48 * num_entries bytes (Mode A, all header values) and never reach the callback or the next header without having read the "
+               "record body (Mode B).  A Kani harness over the compiled code with the float "
                "interpolation intact cross-checks tables of 3 and 4 entries in the thorough tier.")
 BOUNDS = "tables of any length; one loop iteration from an arbitrary state satisfying the stated invariant; value sizes 4 and 8 bytes; Kani: tables of 3/4 entries"
 ASSUMPTIONS = ["the table is sorted by key (serialize_from sorts it; not re-proved here)", "read_start + 16*(num_entries+1) < 2^62 (a file offset)",
                "Seek::seek(Start(x)) positions the reader at x; read_u64 / the value reader consume 8 / size_of::<Value>() bytes (environment contract of Cursor / File)",
                "f64 arithmetic of compute_probe_location is not encoded: its result is an arbitrary u64 before the clamp `.max(lo+1).min(hi-1)`; the debug-build overflow check of `lo + floor(..)` is outside the claim",
                "the result buffer is large enough (callers pass 8 slots; more than 8 equal truncated keys are outside the property)"]
-OUTSIDE = ["serialize_from's table construction and sort order", "the streaming / minimal readers (async; not encoded)", "byte totals / size accounting",
+OUTSIDE = ["serialize_from's table construction and sort order", "what the streaming walkers' callbacks and MDBMinimalShard do with a record (the walkers' record framing is decided: c09_stream_walkers)", "byte totals / size accounting",
            "full-hash comparison after the truncated lookup (plain equality on 32 bytes)"]
 
 PS_DOC = "pair size = 8 + size_of::<Value>()"
@@ -674,3 +677,158 @@ KANI = [
       unwind=8, flags=FAST, timeout=3000, mem_gb=24, covers=["c09 search: duplicate keys hit", "c09 search: miss"], tier="thorough",
       functions=_SF, bounds="tables of exactly 3 entries (all u64 keys incl. duplicates, 0, u64::MAX), any probe key", stubs=[], playback=False, native=replay_search),
 ]
+
+
+def build_walkers(fns):
+    """streaming section walkers (sync and async): per record, exactly 48 * num_info_entry_following bytes (file section) /
+    48 * num_entries bytes (xorb section) are consumed after the header, on every path to the callback"""
+    from mirsym import modeb
+    consts = symex.const_table([os.path.join(REPO, "mdb_shard/src/shard_format.rs"), os.path.join(REPO, "mdb_shard/src/shard_file.rs")])
+    if "MDB_FILE_INFO_ENTRY_SIZE" not in consts:
+        raise LookupError("MDB_FILE_INFO_ENTRY_SIZE not found")
+    symex.Sym.CONSTS = consts
+    E = consts["MDB_FILE_INFO_ENTRY_SIZE"][0]
+    # record sizes the source pins with const_assert!(CONST == size_of::<T>()) (compile-time facts of the build being checked)
+    sizes = {}
+    for fp in ("mdb_shard/src/shard_format.rs", "mdb_shard/src/shard_file.rs"):
+        try:
+            src = open(os.path.join(REPO, fp)).read()
+        except OSError:
+            continue
+        for m in re.finditer(r"const_assert!\((\w+) == size_of::<(\w+)>\(\)\);", src):
+            if m.group(1) in consts:
+                sizes[m.group(2)] = consts[m.group(1)][0]
+    models = dict(symex.STD_MODELS)
+    for tname, sz in sizes.items():
+        models[r"size_of::<(\w+::)*%s>$" % tname] = (lambda v: (lambda sym, path, args, dty: bv(bvconst(v, 64), 64)))(sz)
+    sc = smt.Script("c09_stream_walkers")
+    RES = r"FromResidual<.*>>::from_residual$"
+    walkers = (("sync file walker", r"^(streaming_shard::)?process_shard_file_info_section$", r"FileDataSequenceHeader::deserialize", r"^std::io::copy(::<|$)", r"Read>::take$", 1, True),
+               ("sync xorb walker", r"^(streaming_shard::)?process_shard_cas_info_section$", r"CASChunkSequenceHeader::deserialize", r"^std::io::copy(::<|$)", r"Read>::take$", 1, False),
+               ("async file walker", r"^(streaming_shard::)?process_shard_file_info_section_async::\{closure#0\}$", r"FileDataSequenceHeader::deserialize", r"AsyncReadExt>::read_exact", r"Vec::<u8>::resize$", 1, True),
+               ("async xorb walker", r"^(streaming_shard::)?process_shard_cas_info_section_async::\{closure#0\}$", r"CASChunkSequenceHeader::deserialize", r"AsyncReadExt>::read_exact", r"Vec::<u8>::resize$", 1, False))
+    for label, pat, hpat, bpat, szpat, szarg, is_file in walkers:
+        f = mir.find_fn(fns, pat)
+        g = modeb.CFG(f)
+        H = g.blocks_calling(hpat)
+        B = g.blocks_calling(bpat)
+        CB = [b for b in g.nodes if g.callee(b) and re.search(r"as FnMut<\((\w+::)*MDB(File|CAS)InfoView,\)>>::call_mut$", g.callee(b))]
+        if len(H) != 1 or not B or not CB:
+            raise LookupError("%s: shape not recognised (header=%s body=%s callback=%s)" % (label, H, B, CB))
+        modeb.no_path_query(g, sc, "%s: a record reaches the callback only after its body was read" % label, modeb.after(g, H), CB, B)
+        modeb.no_path_query(g, sc, "%s: the next header is read only after the previous record's body was read (or the walk ended)" % label, modeb.after(g, H), H, B)
+        modeb.no_path_query(g, sc, "witness: %s reaches the callback" % label, modeb.after(g, H), CB, [], expect="sat", kind="witness")
+        # size of the body: Mode A from the header parse to the call that fixes the size
+        s = symex.Sym(f, prefix=re.sub(r"\W", "", label)[:6] + ".", models=models, max_visits=1)
+        n_sz = 0
+        for i, p in enumerate(s.run(H[0], stop_at_call=szpat, max_paths=400)):
+            if p.end != "stop":
+                continue
+            t = mir.parse_term(f.blocks[p.trace[-1]][1])
+            a = s.operand(p, t["args"][szarg])[0]
+            if a.kind != "bv":
+                sc.query("%s: body size is an integer expression of the header [path %d]" % (label, i), ["true"])
+                continue
+            n_sz += 1
+            # the header just parsed: destination of the header call's `?`
+            hd = None
+            for bb in p.trace:
+                tt = mir.parse_term(f.blocks[bb][1])
+                if tt["kind"] == "call" and re.search(r"as Try>::branch$", tt["func"]) and hd is None:
+                    hd = tt["dest"].strip()
+            nfield = [v for k, v in p.store.items() if v.kind == "bv" and v.w == 32 and re.search(r"#vContinue\.0\.2$|^_\d+\.2$|\.\d+\.2$", k)]
+            if not nfield:
+                raise LookupError("%s: num_entries read not identified" % label)
+            n64 = "((_ zero_extend 32) %s)" % nfield[0].t
+            if is_file:
+                flags = []
+                for fp in (r"contains_verification$", r"contains_metadata_ext$"):
+                    d = None
+                    for bb in p.trace:
+                        tt = mir.parse_term(f.blocks[bb][1])
+                        if tt["kind"] == "call" and re.search(fp, tt["func"]):
+                            d = p.store.get(tt["dest"].strip())
+                    if d is None or d.kind != "bool":
+                        raise LookupError("%s: %s not evaluated before the body is sized" % (label, fp))
+                    flags.append(d.t)
+                cnt = "(bvadd %s (bvadd %s %s))" % (n64, mk_ite(flags[0], n64, _u(0)), mk_ite(flags[1], _u(1), _u(0)))
+            else:
+                cnt = n64
+            body = "(bvmul %s %s)" % (cnt, _u(E))
+            want = body if "take" in szpat else "(bvadd %s %s)" % (_u(E), body)
+            sc.query("%s: the body size is %d * (%s) [path %d]" % (label, E, "num_entries + (verification ? num_entries : 0) + (metadata ext ? 1 : 0)" if is_file else "num_entries", i),
+                     p.pc + [mk_not(mk_eq(a.t if a.w == 64 else "((_ zero_extend %d) %s)" % (64 - a.w, a.t), want))])
+            sc.query("witness: %s sizing path feasible [path %d]" % (label, i), p.pc, expect="sat", kind="witness")
+        if not n_sz:
+            raise LookupError("%s: no path from the header to the sizing call" % label)
+        sc.declare(s.decls)
+    return [sc]
+
+
+SMT.append(Q("c09_stream_walkers", "streaming walkers (sync / async) consume exactly one record body per header", "mdb_shard", build_walkers,
+             functions=["mdb_shard::streaming_shard::process_shard_file_info_section(_async)", "mdb_shard::streaming_shard::process_shard_cas_info_section(_async)"],
+             bounds="all CFG paths (Mode B); all paths from the header parse to the sizing call, all header values (Mode A)", solvers=("z3", "cvc5-bv"),
+             replay=native_test("c09_stream_readers_native", "C09 violated", "native replay passes: seekable, sync and async streaming readers list the stored records")))
+
+
+def build_candidates(fns):
+    """after the truncated lookup every candidate the search returned is examined: a candidate that fails the full-hash comparison
+    never ends the lookup (Mode B), and the comparison is between the stored record's hash and the queried hash (provenance)"""
+    from mirsym import modeb
+    sc = smt.Script("c09_candidate_loops")
+    RES = r"FromResidual<.*>>::from_residual$"
+    # file lookup
+    f = mir.find_fn(fns, r"shard_format::<impl at [^>]*>::get_file_reconstruction_info$")
+    g = modeb.CFG(f)
+    rd = g.blocks_calling(r"MDBShardInfo::read_file_info")
+    nxt = [b for b in g.nodes if g.callee(b) and re.search(r"as Iterator>::next$", g.callee(b))]
+    eq_true = modeb.bool_branch_edges(g, r"<(\w+::)*DataHash as PartialEq>::eq$", True)
+    if not rd or not nxt:
+        raise LookupError("get_file_reconstruction_info: candidate loop not recognised (read=%s next=%s)" % (rd, nxt))
+    modeb.no_path_query(g, sc, "file lookup: after a candidate record was read the function returns only with that record (hash equal), with an error, or after asking for the next candidate",
+                        modeb.after(g, rd), sorted(g.real_returns), nxt + g.blocks_calling(RES), avoid_edges=eq_true)
+    modeb.no_path_query(g, sc, "file lookup: a record is returned only after its full hash was compared", [g.entry], [t for _, t in eq_true] if eq_true else sorted(g.real_returns),
+                        g.blocks_calling(r"<(\w+::)*DataHash as PartialEq>::eq$")) if eq_true else sc.query("file lookup: a full-hash comparison guards the result", ["true"])
+    modeb.no_path_query(g, sc, "witness: file lookup returns a record", modeb.after(g, rd), sorted(g.real_returns), nxt + g.blocks_calling(RES), expect="sat", kind="witness")
+    s = symex.Sym(f, prefix="fl.", models=symex.STD_MODELS, max_visits=1)
+    n = 0
+    for i, p in enumerate(s.run("bb0", max_paths=200)):
+        ev = _events(p, r"<(\w+::)*DataHash as PartialEq>::eq$")
+        if not ev:
+            continue
+        n += 1
+        a = ev[0][4]
+        ok = len(a) == 2 and a[0].kind == "ref" and re.search(r"\.0\.0$", s.key(a[0].t)) is not None and a[1].kind == "opaque" and a[1].t.endswith("_3")
+        sc.query("file lookup: the comparison is (candidate record's file hash == queried hash) [path %d]" % i, ["false"] if ok else ["true"])
+        tk = _events(p, r"as Iterator>::take$")
+        ok2 = bool(tk) and tk[0][4][1].kind == "bv" and "#vContinue.0" in tk[0][4][1].t
+        sc.query("file lookup: exactly the candidates the search reported are examined (take(num_indices)) [path %d]" % i, ["false"] if ok2 else ["true"])
+        break
+    if not n:
+        sc.query("file lookup: the candidate's full hash is compared for equality with the queried hash", ["true"])
+    # chunk lookup
+    g2 = modeb.CFG(mir.find_fn(fns, r"shard_format::<impl at [^>]*>::chunk_hash_dedup_query$"))
+    dq = g2.blocks_calling(r"chunk_hash_dedup_query_direct")
+    nxt2 = [b for b in g2.nodes if g2.callee(b) and re.search(r"as Iterator>::next$", g2.callee(b))]
+    if not dq or not nxt2:
+        raise LookupError("chunk_hash_dedup_query: candidate loop not recognised")
+    some_edges = []
+    for d in dq:
+        b = g2.term[d]["target"]
+        if b and g2.callee(b) and re.search(r"as Try>::branch$", g2.callee(b)):
+            sw = g2.term[b]["target"]
+            if sw and g2.term[sw]["kind"] == "switch":
+                for c in [v for k, v in g2.term[sw]["targets"] if k == 0]:
+                    if g2.term[c]["kind"] == "switch" and any("discriminant(" in st for st in g2.fn.blocks[c][0]):
+                        some_edges += [(c, v) for k, v in g2.term[c]["targets"] if k == 1]
+    modeb.no_path_query(g2, sc, "chunk lookup: after a candidate location was checked the function returns only with its match, with an error, or after asking for the next candidate",
+                        modeb.after(g2, dq), sorted(g2.real_returns), nxt2 + g2.blocks_calling(RES), avoid_edges=some_edges)
+    modeb.no_path_query(g2, sc, "witness: chunk lookup returns a match", modeb.after(g2, dq), sorted(g2.real_returns), nxt2 + g2.blocks_calling(RES), expect="sat", kind="witness")
+    sc.declare(s.decls)
+    return [sc]
+
+
+SMT.append(Q("c09_candidate_loops", "every candidate of a truncated lookup is examined; only a full-hash match ends the lookup early", "mdb_shard", build_candidates,
+             functions=["mdb_shard::shard_format::MDBShardInfo::get_file_reconstruction_info", "mdb_shard::shard_format::MDBShardInfo::chunk_hash_dedup_query"],
+             bounds="all CFG paths", solvers=("z3", "cvc5-bv"),
+             replay=native_test("c09_prefix_collision_lookup", "C09 violated", "native replay passes: every member of a 64-bit-prefix group is found in tables below and above the window size")))
